@@ -356,6 +356,16 @@ theorem gen_composite_codecs_eq_model {ε α : Type} (t : Ty) (n : Nat) (T_decod
       simp only [Loops.codec_array_static_length, staticLength]; cases staticLength t <;> rfl⟩
 example : Item Loops.codec_phantom_decode (fun _ => Val.unit) (decode .phantom) := phantom_item
 
+/-- **`Polynomial<T>`**: the regenerated decoder (length indicator against the sequence length, `Vec<T>::decode` of the rest,
+    rejection of a trailing zero coefficient through `T::is_zero`) is the model's `poly` case whenever the coefficient
+    codec and `is_zero` are the model's -/
+theorem gen_poly_codec_eq_model {ε α : Type} (t : Ty) (T_decode : List Nat → Res ε α) (into : ε → DynErr) (isz : α → Bool)
+    (toVal : α → Val) (h : Item T_decode toVal (decode t)) (hz : ∀ a, isz a = valIsZero (toVal a)) :
+    Item (Loops.codec_poly_decode (staticLength t) T_decode into isz) (fun l => Val.list (l.map toVal)) (decode (.poly t)) ∧
+    Loops.codec_poly_static_length = staticLength (.poly t) :=
+  ⟨poly_item t T_decode into isz toVal h hz, rfl⟩
+example : ∀ a : Nat, (fun x : Nat => x == 0) a = valIsZero (Val.num a) := fun _ => rfl
+
 /-- **transfer** of `encode_decode` / `decode_welltyped`-style facts to the regenerated combinators: whatever a regenerated
     composite decoder (one that is observed as `decode ty`) accepts, re-encodes (model encoder) to the values of the
     accepted words; in particular two accepted sequences with the same decoded value have the same values -/
